@@ -1,132 +1,25 @@
-/* Contracts of the token layer (property C14: "a document is accepted only if every start tag is closed by a matching end tag in proper
- * nesting and all configured limits hold; every reported slice lies inside the input").
- * OLD(x) = value on entry. GL = arbitrary ghost stack level (witness entry), GK = arbitrary byte index, GA = arbitrary attribute index. */
-#define ST self->_elementStack
-#define TOK self->_token
-#define TOKEN_FRAME self->_cur, self->_line, self->_col, self->_hasError, self->_error, self->_token, self->_producedTokens
-#define ERR_IFF_FALSE ENS(!RV ==> self->_hasError) ENS(RV ==> self->_hasError == OLD(self->_hasError))
-#define ATTR_OK(a) (XML_SLICE_IN(self, (a).name) && XML_SLICE_IN(self, (a).value) && (a).name.n >= 1 && (a).name.n <= self->_opt.maxNameLength && (a).value.n <= self->_opt.maxTextSpan)
-
-/* ---------------- readAttributes ---------------- */
-#define DECL_readAttributes(sym, POST) bool sym(Parser *self, iora_attrvec *attrs) __CPROVER_requires(XML_PRE(self) && __CPROVER_is_fresh(attrs, sizeof(*attrs))) \
-  __CPROVER_assigns(self->_cur, self->_line, self->_col, self->_hasError, self->_error, attrs->n, attrs->gk) POST ;
-/* A1 cursor; A2 true => NOT at the end and the next byte is '/' or '>' (the caller peeks without testing eof()); A5 failure <=> error flag */
-#define ATTRS_SAFE ENS(XML_CUR_INV(self) && self->_cur >= OC) ENS(RV ==> (NOT_EOF && (XML_AT(self, self->_cur) == (char)47 || XML_AT(self, self->_cur) == (char)62))) ERR_IFF_FALSE
-/* A3 limit: never more than maxAttrsPerElement attributes are reported; A4 slice containment and limits of EVERY attribute (witness index GA) */
-#define ATTRS_LIMIT ENS(RV ==> attrs->n <= self->_opt.maxAttrsPerElement) ENS((RV && GA < attrs->n) ==> ATTR_OK(attrs->gk))
+/* unit xml_tags: one contract symbol per proof (PRE + FRAME + clause groups of contracts.h) and the harnesses */
+/* ---- readAttributes ---- */
 DECL_readAttributes(Parser_readAttributes_contract, ATTRS_SAFE ATTRS_LIMIT)
 DECL_readAttributes(Parser_readAttributes_safe, ATTRS_SAFE)
 DECL_readAttributes(Parser_readAttributes_limit, ATTRS_LIMIT)
 void h_readAttributes(void) { Parser *p; iora_attrvec *a; bool r = Parser_readAttributes(p, a); IORA_CANARY("h_readAttributes: returns");
   if (r) { IORA_CANARY("h_readAttributes: ok"); } else { IORA_CANARY("h_readAttributes: error"); } }
-
-/* ---------------- readComment / readCData ---------------- */
-#define DECL_readDelimited(sym, POST) bool sym(Parser *self, size_t startOffset, size_t startLine, size_t startCol) \
-  __CPROVER_requires(XML_TAG_PRE(self) && XML_GS_TAIL(self)) __CPROVER_assigns(TOKEN_FRAME) POST ;
-/* D1 invariants; D2 slice containment: the token text is exactly the input range up to the terminator; D3 failure <=> error flag, no token counted */
-#define DELIM_POST(KIND) ENS(XML_CUR_INV(self) && self->_cur >= OC && XML_TAG_INV(self)) \
-  ENS(RV ==> (TOK.kind == KIND && self->_cur >= OC + 3 && XML_SLICE_IS(self, TOK.text, OC, self->_cur - OC - 3) && TOK.name.n == 0 && TOK.attributes.n == 0)) \
-  ENS(RV ==> (TOK.depth == self->_depth && TOK.offset == startOffset && self->_producedTokens == OLD(self->_producedTokens) + 1)) \
-  ENS(!RV ==> self->_producedTokens == OLD(self->_producedTokens)) ERR_IFF_FALSE
+/* ---- readComment / readCData ---- */
 DECL_readDelimited(Parser_readComment_contract, DELIM_POST(TokenKind_Comment))
 DECL_readDelimited(Parser_readCData_contract, DELIM_POST(TokenKind_CData))
 void h_readComment(void) { Parser *p; size_t a, b, c; bool r = Parser_readComment(p, a, b, c); IORA_CANARY("h_readComment: returns"); if (r) { IORA_CANARY("h_readComment: token"); } else { IORA_CANARY("h_readComment: error"); } }
 void h_readCData(void) { Parser *p; size_t a, b, c; bool r = Parser_readCData(p, a, b, c); IORA_CANARY("h_readCData: returns"); if (r) { IORA_CANARY("h_readCData: token"); } else { IORA_CANARY("h_readCData: error"); } }
-
-/* ---------------- readProcessingInstruction / readDoctype: ASSUMED (not proved in this round, see NOTES.md) ---------------- */
-#define OTHER_POST(KIND) ENS(XML_CUR_INV(self) && self->_cur >= OC && XML_TAG_INV(self)) \
-  ENS(RV ==> (TOK.kind == KIND && XML_SLICE_IN(self, TOK.name) && XML_SLICE_IN(self, TOK.text) && TOK.attributes.n == 0 && self->_producedTokens == OLD(self->_producedTokens) + 1)) \
-  ENS(!RV ==> self->_producedTokens == OLD(self->_producedTokens)) ERR_IFF_FALSE
-bool Parser_readProcessingInstruction_assumed(Parser *self, size_t startOffset, size_t startLine, size_t startCol)
-  __CPROVER_requires(XML_TAG_PRE(self)) __CPROVER_assigns(TOKEN_FRAME) OTHER_POST(TokenKind_ProcessingInstruction) ;
-bool Parser_readDoctype_assumed(Parser *self, size_t startOffset, size_t startLine, size_t startCol)
-  __CPROVER_requires(XML_TAG_PRE(self)) __CPROVER_assigns(TOKEN_FRAME) OTHER_POST(TokenKind_Doctype) ;
-
-/* ---------------- readEndTag: BALANCE ---------------- */
-#define DECL_readEndTag(sym, POST) bool sym(Parser *self, size_t startOffset, size_t startLine, size_t startCol) \
-  __CPROVER_requires(XML_TAG_PRE(self)) __CPROVER_assigns(TOKEN_FRAME, self->_depth, ST.n) POST ;
-/* E1 invariants (depth == stack size) on every outcome; E5 failure <=> error flag and nothing popped/counted; E6 an end tag with no open element is rejected */
-#define END_SAFE ENS(XML_CUR_INV(self) && self->_cur >= OC && XML_TAG_INV(self)) ERR_IFF_FALSE \
-  ENS(!RV ==> (ST.n == OLD(ST.n) && self->_depth == OLD(self->_depth) && self->_producedTokens == OLD(self->_producedTokens))) \
-  ENS(OLD(ST.n) == 0 ==> !RV)
-/* E2 an EndElement pops exactly one open element; E4 slice containment + name limit */
-#define END_POP ENS(RV ==> (OLD(ST.n) >= 1 && ST.n == OLD(ST.n) - 1 && self->_depth == OLD(self->_depth) - 1 && TOK.kind == TokenKind_EndElement \
-       && TOK.depth == OLD(self->_depth) && TOK.offset == startOffset && self->_producedTokens == OLD(self->_producedTokens) + 1 && self->_cur >= OC + 2)) \
-  ENS(RV ==> (XML_SLICE_IN(self, TOK.name) && TOK.name.n >= 1 && TOK.name.n <= self->_opt.maxNameLength && TOK.attributes.n == 0))
-/* E3 BALANCE: EndElement is produced only if its name EQUALS the top of the stack - for the arbitrary witness level GL: same length and the
- * same byte at the arbitrary index GK */
-#define END_MATCH ENS((RV && OLD(ST.n) - 1 == GL) ==> TOK.name.n == OLD(ST.wit_n)) \
-  ENS((RV && OLD(ST.n) - 1 == GL && GK < TOK.name.n) ==> XML_SLICE_BYTE(self, TOK.name, GK) == XML_AT(self, OLD(ST.wit_off) + GK))
-DECL_readEndTag(Parser_readEndTag_contract, END_SAFE END_POP END_MATCH)
+/* ---- readEndTag ---- */
 DECL_readEndTag(Parser_readEndTag_safe, END_SAFE)
 DECL_readEndTag(Parser_readEndTag_balance, END_POP END_MATCH)
 void h_readEndTag(void) { Parser *p; size_t a, b, c; bool r = Parser_readEndTag(p, a, b, c); IORA_CANARY("h_readEndTag: returns"); if (r) { IORA_CANARY("h_readEndTag: token"); } else { IORA_CANARY("h_readEndTag: error"); } }
-
-/* ---------------- readStartOrEmptyTag: depth limit BEFORE the increment, push ---------------- */
-#define DECL_readStart(sym, POST) bool sym(Parser *self, size_t startOffset, size_t startLine, size_t startCol) \
-  __CPROVER_requires(XML_TAG_PRE(self)) __CPROVER_assigns(TOKEN_FRAME, self->_depth, ST.n, ST.wit_off, ST.wit_n) POST ;
-#define START_SAFE ENS(XML_CUR_INV(self) && self->_cur >= OC && XML_TAG_INV(self)) ERR_IFF_FALSE \
-  ENS(!RV ==> (ST.n == OLD(ST.n) && self->_depth == OLD(self->_depth) && self->_producedTokens == OLD(self->_producedTokens)))
-/* S2 `_depth + 1 > maxDepth` is tested BEFORE the increment: an accepted tag never takes the depth beyond maxDepth (and the counter cannot wrap);
- * S3 StartElement pushes exactly one element; S4 EmptyElement leaves stack and depth unchanged */
-#define START_DEPTH ENS(RV ==> (OLD(self->_depth) < self->_opt.maxDepth && (TOK.kind == TokenKind_StartElement || TOK.kind == TokenKind_EmptyElement) \
-       && TOK.depth == OLD(self->_depth) + 1 && TOK.offset == startOffset && self->_producedTokens == OLD(self->_producedTokens) + 1 && self->_cur >= OC + 2)) \
-  ENS((RV && TOK.kind == TokenKind_StartElement) ==> (ST.n == OLD(ST.n) + 1 && self->_depth == OLD(self->_depth) + 1 && !TOK.selfClosing)) \
-  ENS((RV && TOK.kind == TokenKind_EmptyElement) ==> (ST.n == OLD(ST.n) && self->_depth == OLD(self->_depth) && TOK.selfClosing))
-/* S5 the pushed entry IS the reported name (witness level GL); other levels are untouched; S6 slice containment + limits of name and attributes */
-#define START_PUSH ENS((RV && TOK.kind == TokenKind_StartElement && OLD(ST.n) == GL) ==> (ST.wit_off == (size_t)__CPROVER_POINTER_OFFSET(TOK.name.p) && ST.wit_n == TOK.name.n)) \
-  ENS(!(RV && TOK.kind == TokenKind_StartElement && OLD(ST.n) == GL) ==> (ST.wit_off == OLD(ST.wit_off) && ST.wit_n == OLD(ST.wit_n))) \
-  ENS(RV ==> (XML_SLICE_IN(self, TOK.name) && TOK.name.n >= 1 && TOK.name.n <= self->_opt.maxNameLength && TOK.attributes.n <= self->_opt.maxAttrsPerElement)) \
-  ENS((RV && GA < TOK.attributes.n) ==> ATTR_OK(TOK.attributes.gk))
-DECL_readStart(Parser_readStartOrEmptyTag_contract, START_SAFE START_DEPTH START_PUSH)
+/* ---- readStartOrEmptyTag ---- */
 DECL_readStart(Parser_readStartOrEmptyTag_safe, START_SAFE)
 DECL_readStart(Parser_readStartOrEmptyTag_depth, START_DEPTH)
 DECL_readStart(Parser_readStartOrEmptyTag_push, START_PUSH)
 void h_readStart(void) { Parser *p; size_t a, b, c; bool r = Parser_readStartOrEmptyTag(p, a, b, c); IORA_CANARY("h_readStart: returns");
-  if (r) { if (p == 0) { } IORA_CANARY("h_readStart: token"); } else { IORA_CANARY("h_readStart: error"); } }
-
-/* ---------------- emitEof: Eof only if the stack is empty ---------------- */
-void Parser_emitEof_contract(Parser *self)
-__CPROVER_requires(XML_TAG_PRE(self))
-__CPROVER_assigns(self->_hasError, self->_error, self->_token, self->_emittedEof)
-/* F1 open elements at the end => error, NO Eof */
-ENS(OLD(ST.n) > 0 ==> (self->_hasError && self->_emittedEof == OLD(self->_emittedEof)))
-/* F2 empty stack => Eof token */
-ENS(OLD(ST.n) == 0 ==> (self->_emittedEof && TOK.kind == TokenKind_Eof && TOK.offset == self->_cur && TOK.depth == self->_depth && TOK.name.n == 0 && TOK.text.n == 0 && self->_hasError == OLD(self->_hasError)))
-;
+  if (r) { IORA_CANARY("h_readStart: token"); } else { IORA_CANARY("h_readStart: error"); } }
+/* ---- emitEof ---- */
+DECL_emitEof(Parser_emitEof_contract, EMITEOF_POST)
 void h_emitEof(void) { Parser *p; Parser_emitEof(p); IORA_CANARY("h_emitEof: returns"); }
-
-/* ---------------- next ---------------- */
-#define DECL_next(sym, POST) bool sym(Parser *self) __CPROVER_requires(XML_TAG_PRE(self) && XML_GS_TAIL(self)) \
-  __CPROVER_assigns(TOKEN_FRAME, self->_depth, ST.n, ST.wit_off, ST.wit_n, self->_emittedEof) POST ;
-#define WAS_DONE (OLD(self->_hasError) || OLD(self->_emittedEof))
-#define AT_LIMIT (self->_opt.maxTotalTokens != 0 && OLD(self->_producedTokens) >= self->_opt.maxTotalTokens)
-/* N1 invariants on every outcome; N2 after an error or Eof nothing happens any more; N5 false <=> error or Eof */
-#define NEXT_SAFE ENS(XML_CUR_INV(self) && self->_cur >= OC && XML_TAG_INV(self)) \
-  ENS(WAS_DONE ==> (!RV && self->_cur == OC && self->_producedTokens == OLD(self->_producedTokens) && ST.n == OLD(ST.n) && self->_hasError == OLD(self->_hasError) && self->_emittedEof == OLD(self->_emittedEof))) \
-  ENS(!RV ==> (self->_hasError || self->_emittedEof)) ENS(RV ==> (!self->_hasError && !self->_emittedEof))
-/* N3 the token limit is tested BEFORE producing: at the limit nothing is consumed or counted; the count never exceeds the limit;
- * N4 a token costs at least one byte (so the pull loop terminates: variant size - cursor) and is counted exactly once */
-#define NEXT_LIMIT ENS((!WAS_DONE && AT_LIMIT) ==> (!RV && self->_hasError && self->_cur == OC && self->_producedTokens == OLD(self->_producedTokens))) \
-  ENS((RV && self->_opt.maxTotalTokens != 0) ==> self->_producedTokens <= self->_opt.maxTotalTokens) \
-  ENS(RV ==> (self->_producedTokens == OLD(self->_producedTokens) + 1 && self->_cur > OC)) ENS(!RV ==> self->_producedTokens == OLD(self->_producedTokens))
-/* N6 BALANCE at the interface: Eof only if the stack is empty and the input is exhausted; EndElement pops one element and carries the name of the
- * top (witness level GL, byte GK); StartElement pushes one within maxDepth; every other token leaves the stack alone */
-#define NEXT_BALANCE ENS((self->_emittedEof && !OLD(self->_emittedEof)) ==> (ST.n == 0 && self->_depth == 0 && TOK.kind == TokenKind_Eof && self->_cur == self->_input.n && !RV)) \
-  ENS((RV && TOK.kind == TokenKind_EndElement) ==> (OLD(ST.n) >= 1 && ST.n == OLD(ST.n) - 1)) \
-  ENS((RV && TOK.kind == TokenKind_EndElement && OLD(ST.n) - 1 == GL) ==> TOK.name.n == OLD(ST.wit_n)) \
-  ENS((RV && TOK.kind == TokenKind_EndElement && OLD(ST.n) - 1 == GL && GK < TOK.name.n) ==> XML_SLICE_BYTE(self, TOK.name, GK) == XML_AT(self, OLD(ST.wit_off) + GK)) \
-  ENS((RV && TOK.kind == TokenKind_StartElement) ==> (ST.n == OLD(ST.n) + 1 && ST.n <= self->_opt.maxDepth)) \
-  ENS((RV && TOK.kind != TokenKind_StartElement && TOK.kind != TokenKind_EndElement) ==> ST.n == OLD(ST.n)) \
-  ENS(!RV ==> ST.n == OLD(ST.n))
-/* N7 slice containment of what the token reports; N8 only the nine token kinds */
-#define NEXT_SLICES ENS(RV ==> (XML_SLICE_IN(self, TOK.name) && XML_SLICE_IN(self, TOK.text) && TOK.name.n <= self->_opt.maxNameLength && TOK.attributes.n <= self->_opt.maxAttrsPerElement)) \
-  ENS((RV && GA < TOK.attributes.n) ==> ATTR_OK(TOK.attributes.gk)) \
-  ENS(RV ==> (TOK.kind == TokenKind_Doctype || TOK.kind == TokenKind_StartElement || TOK.kind == TokenKind_EndElement || TOK.kind == TokenKind_EmptyElement \
-     || TOK.kind == TokenKind_Text || TOK.kind == TokenKind_CData || TOK.kind == TokenKind_Comment || TOK.kind == TokenKind_ProcessingInstruction)) \
-  ENS((RV && TOK.kind == TokenKind_Text) ==> TOK.text.n <= self->_opt.maxTextSpan)
-DECL_next(Parser_next_safe, NEXT_SAFE)
-DECL_next(Parser_next_limit, NEXT_LIMIT)
-DECL_next(Parser_next_balance, NEXT_BALANCE)
-DECL_next(Parser_next_slices, NEXT_SLICES)
-void h_next(void) { Parser *p; bool r = Parser_next(p); IORA_CANARY("h_next: returns"); if (r) { IORA_CANARY("h_next: token"); } else { IORA_CANARY("h_next: error or Eof"); } }
